@@ -154,11 +154,8 @@ func sampleOf(h *History) any {
 
 // RunK is the test body of an Engine K property.
 func RunK(t *testing.T, cfg PropCfg) {
-	col := NewCollector(cfg.ID)
-	defer col.Write(os.Getenv("VERIF_EVIDENCE_OUT"))
-	defer func() {
-		col.Extra["rule"] = cfg.Rule
-	}()
+	col := GlobalCollector(cfg.ID)
+	col.AddRule(cfg.Rule)
 	if p := os.Getenv("VERIF_REPLAY_FILE"); p != "" {
 		ReplayK(t, cfg, p)
 		return
@@ -213,4 +210,44 @@ func hasLabel(h *History, names ...string) bool {
 		}
 	}
 	return false
+}
+
+var (
+	globalColMu sync.Mutex
+	globalCol   *Collector
+)
+
+// GlobalCollector returns the process-wide collector (one property per process); it is written
+// by FlushEvidence from TestMain so that several tests of one property share one shard.
+func GlobalCollector(prop string) *Collector {
+	globalColMu.Lock()
+	defer globalColMu.Unlock()
+	if globalCol == nil {
+		globalCol = NewCollector(prop)
+	}
+	return globalCol
+}
+
+// AddRule appends a rule text (deduplicated).
+func (c *Collector) AddRule(r string) {
+	c.mu.Lock()
+	defer c.mu.Unlock()
+	cur, _ := c.Extra["rule"].(string)
+	if strings.Contains(cur, r) {
+		return
+	}
+	if cur != "" {
+		cur += " || "
+	}
+	c.Extra["rule"] = cur + r
+}
+
+// FlushEvidence writes the shard of the process-wide collector.
+func FlushEvidence() {
+	globalColMu.Lock()
+	c := globalCol
+	globalColMu.Unlock()
+	if c != nil {
+		c.Write(os.Getenv("VERIF_EVIDENCE_OUT"))
+	}
 }
